@@ -3,11 +3,14 @@
 // relation (whole path components), and the visible set for a root is exactly its dependency closure.
 use super::*;
 
+// whole-component prefix as defined in DESIGN.md section 5 (pp), written independently of the code under test over component
+// lists: a prefix written with a trailing slash names a directory and matches itself and what is below it, not the bare name
 fn pp(prefix: &str, path: &str) -> bool {
-    // whole-component prefix, written independently of the code under test (component lists)
-    let a: Vec<&str> = prefix.split('/').filter(|s| !s.is_empty()).collect();
-    let b: Vec<&str> = path.split('/').filter(|s| !s.is_empty()).collect();
-    a.len() <= b.len() && a.iter().zip(b.iter()).all(|(x, y)| x == y)
+    let a: Vec<&str> = prefix.split('/').collect();
+    let b: Vec<&str> = path.split('/').collect();
+    let dir = a.last() == Some(&"") && a.len() > 1;
+    let a2: Vec<&str> = if dir { a[..a.len() - 1].to_vec() } else { a.clone() };
+    a2.len() <= b.len() && a2.iter().zip(b.iter()).all(|(x, y)| x == y) && (!dir || b.len() > a2.len())
 }
 
 fn mk_cfg(targets: &[(&str, Vec<&str>)]) -> Config {
@@ -40,9 +43,9 @@ fn edges_of(ix: &Index, td: &std::path::Path) -> Vec<(usize, usize)> {
 fn vf_index_edges_and_closure() {
     let td = crate::core::testing::new_testdir().unwrap();
     let work = td.path();
-    let paths = ["app", "app2", "app-web", "app/sub", "lib", "lib2"];
+    let paths = ["app", "app2", "app-web", "app/sub", "lib", "lib2", "libs/", "libs/core"];
     for p in paths.iter() { std::fs::create_dir_all(work.join(p)).unwrap(); std::fs::write(work.join(p).join("f.txt"), b"x").unwrap(); }
-    let uses_pool = ["lib", "lib2/src", "app/sub/file.txt", "app2", "app", "outside/x", "app-web/a"];
+    let uses_pool = ["lib", "lib2/src", "app/sub/file.txt", "app2", "app", "outside/x", "app-web/a", "libs/util.rs", "libs"];
     let (mut checked, mut bad, mut nontrivial) = (0u64, 0u64, 0u64);
     // ordered selections of 2..=3 target paths; each target gets 0..=2 uses entries chosen by a small counter
     let np = paths.len();
@@ -77,7 +80,7 @@ fn vf_index_edges_and_closure() {
                     let got = edges_of(&ix, work);
                     if got != want {
                         bad += 1;
-                        if bad <= 3 { println!("VF-FAIL targets={:?} :: Index::new built edges {:?} but the configuration declares exactly {:?} (T depends on U iff U != T and U's directory contains T's directory or one of T's uses, whole components; grouping and cycle detection work on these edges) (C10) (C03) (C09)", targets, got, want); }
+                        if bad <= 3 { println!("VF-FAIL targets={:?} :: Index::new built edges {:?} but the configuration declares exactly {:?} (T depends on U iff U != T and U's directory contains T's directory or one of T's uses, whole components; grouping and cycle detection work on these edges) (C10) (C03) (C09) (C04)", targets, got, want); }
                         continue;
                     }
                 }
